@@ -199,7 +199,9 @@ class DualQuaternion:
                 return DualQuaternion(real, dual)
         elif isinstance(left, UnitDualQuaternion) and base.isvector(right, 3):
             v = base.getvector(right, 3)
-            vp = left * DualQuaternion.Pure(v) * left.conj()
+            # a point transforms with the conjugate r* - eps d* (quaternion
+            # conjugate of both parts and sign change of the dual part)
+            vp = left * DualQuaternion.Pure(v) * DualQuaternion(left.real.conj(), -1 * left.dual.conj())
             return vp.dual.v
         else:
             raise ValueError('bad operands')
